@@ -616,12 +616,14 @@ func (b *builder) valLit(t *Term, depth int) string {
 	case "VIntPtrs":
 		var els []string
 		for i := int64(0); i < 3; i++ {
-			pres, _ := b.boolOf(Select(App("vpp", SArray(SInt, SBool), t), IntLit(i)))
-			if !pres {
+			pt := b.w.pintSort()
+			slot := App(fmt.Sprintf("vp%d", i), pt, t)
+			isnil, _ := b.boolOf(App("(_ is pnil)", SBool, slot))
+			if isnil {
 				els = append(els, "nil")
 				continue
 			}
-			vt := Select(App("vpv", SArray(SInt, SInt), t), IntLit(i))
+			vt := App("pval", SInt, slot)
 			n, _ := b.intOf(vt, smallCap(vt, 8))
 			els = append(els, fmt.Sprintf("govcIntPtr(%d)", n))
 		}
